@@ -23,6 +23,26 @@ def normalise(msg):
     return m.strip()[:90]
 
 
+def family(msg):
+    """family of a javac type error (for signatures)"""
+    m = msg
+    if 'inference variable' in m and 'incompatible' in m:
+        return 'inference-variable-bounds'
+    if 'invalid method reference' in m:
+        return 'invalid-method-reference'
+    if 'bad return type' in m:
+        return 'bad-return-type-in-lambda'
+    if m.startswith('incompatible types') and 'cannot be converted' in m:
+        return 'cannot-be-converted'
+    if m.startswith('type argument') and 'not within bounds' in m:
+        return 'type-argument-not-within-bounds'
+    if 'cannot be applied to given types' in m:
+        return 'method-cannot-be-applied'
+    if m.startswith('incompatible types'):
+        return 'incompatible-types-other'
+    return normalise(m)
+
+
 def construct(line):
     s = line.strip()
     if re.search(r'new \w+<>\(', s):
@@ -158,6 +178,9 @@ class C02(PipelineCheck):
                         continue
             except SimBudget:
                 status = 'budget'
+            except core.ReplayDiverged:
+                status = 'diverged'
+                files = {}
             if files:
                 comp = JavaCompiler(src)
                 rc, text = javac(' '.join(comp.get_compiler_cmd()))
@@ -209,8 +232,10 @@ class C02(PipelineCheck):
                                     continue
                             ln, msg, srcline = errs[0]
                             v.append({'rule': 'javac-accepts',
-                                      'sig': 'javac|%s|%s|%s' % (kind, normalise(msg),
-                                                                 construct(srcline)),
+                                      'sig': 'javac|%s|%s|%s' % (
+                                          kind, family(msg),
+                                          'diamond-new' if construct(srcline) == 'diamond-new'
+                                          else '-'),
                                       'detail': '%s program %d rejected by javac (%d errors); '
                                                 'first: Main.java:%d: %s | %s' % (
                                                     kind, j, len(errs), ln, msg[:160],
